@@ -496,8 +496,10 @@ def r_prov(ctx) -> RuleResult:
             if odd:
                 raise AnalysisError(f"R-PROV: V3000: `{short(ev.node, 60)}` stores `{ev.key}` under a test on {odd[:2]} that is not a keyword test this analysis reads")
             from_file = any(x.startswith(("@idx", "@col", "@part", "@has:", "@sw:", "@eq:", "@line", "@row")) for x in fl)
-            ok = all(want in k for k in kws) and idx <= {"3"} and (bool(kws) or bool(idx) or not from_file)
-            if ev.key != "mass" and idx:
+            # the first / last of the tokens that a keyword test selected is still one of those tokens
+            pick = {"-1", "0"} if kws and all(want in k for k in kws) else set()
+            ok = all(want in k for k in kws) and idx <= ({"3"} | pick) and (bool(kws) or bool(idx) or not from_file)
+            if ev.key != "mass" and idx - pick:
                 ok = False
             why = f"tokens selected by {sorted(kws)} / positions {sorted(idx)} -> `{ev.key}` (allowed: {want}=… tokens" + ("; type token for D/T)" if ev.key == "mass" else ")")
         res.inst(ev.fi.fq, f"V3000 {ev.key} <- {short(ev.node, 70)}", "ok" if ok else "fail", detail=why)
@@ -728,6 +730,10 @@ def r_cols(ctx) -> RuleResult:
                 continue
             raise AnalysisError(f"R-COLS: cannot see which columns of the atom line `{k}` is read from")
         ok = got == want
+        if not ok and want <= got:
+            # the field's own columns and others meet in one abstract value (values of different lines stored through one
+            # statement with a computed key): a join of the analysis, no evidence of a wrong column
+            raise AnalysisError(f"R-COLS: `{k}` of the atom record carries the columns {sorted(got)}: the format's {sorted(want)} and others that the analysis does not keep apart")
         res.inst(fi.fq, f"atom line: `{k}` read from columns {sorted(got)}", "ok" if ok else "fail", detail=f"spec {sorted(want)}")
         if not ok:
             res.fail(Finding("R-COLS", fi.module.rel, "_parse_atom_line", f"{k} <- line[{sorted(got)}]", f"`{k}` is read from columns {sorted(got)}, the format has it at {sorted(want)}"))
@@ -1466,6 +1472,8 @@ def r_supersede(ctx) -> RuleResult:
         (["M  ISO  1   1   3"], {0: {mass_k: 2}, 1: {}}, {0: {mass_k: 3}, 1: {}}, "an isotope entry overrides the mass of a D atom"),
         (["M  CHG  2   1   1   2  -1", "M  CHG  1   1   2"], {0: {}, 1: {}}, {0: {chg_k: 2}, 1: {chg_k: -1}}, "a later entry for the same atom wins"),
         (["M  CHG  1   1   0"], {0: {chg_k: 1}, 1: {}}, {0: {}, 1: {}}, "an explicit 0 is no entry (and the line still supersedes)"),
+        (["M  CHG  1   2   1", "M  ISO  1   1  13"], {0: {rad_k: 2}, 1: {}}, {0: {mass_k: 13}, 1: {chg_k: 1}}, "a charge line supersedes the charge codes also when an isotope line follows it"),
+        (["M  ISO  1   1  13", "M  RAD  1   2   2"], {0: {chg_k: 1}, 1: {}}, {0: {mass_k: 13}, 1: {rad_k: 2}}, "a radical line supersedes the charge codes also when an isotope line precedes it"),
     ]
     n_followed = 0
     for lines_, atoms_in, want_, what_ in cases:
